@@ -29,6 +29,20 @@ Theorem parse_encode : forall o fs, wf_fields o fs = true ->
 Proof. exact parse_encode_l. Qed.
 Print Assumptions parse_encode.
 
+(* the code's own encoder (serialize_method.go: encodeFieldPlans over converted field plans) writes
+   exactly the canonical encoding, so the parser inverts Protowire::serialize too.  (Value conversion
+   from PHP values to plans — toUint64, zigzag, Float64bits — and annotation reading are not modelled.) *)
+Theorem serialize_is_canonical : forall fs,
+  forallb packed_varint_only fs = true -> forallb fixed32_small fs = true ->
+  enc_plans (map plan_of fs) = Some (encode_fields fs).
+Proof. exact serialize_is_canonical_l. Qed.
+Print Assumptions serialize_is_canonical.
+
+Theorem parse_serialize : forall o fs, wf_fields o fs = true -> forallb packed_varint_only fs = true ->
+  exists d, enc_plans (map plan_of fs) = Some d /\ parse_fields o 0 d = Ok fs.
+Proof. exact parse_serialize_l. Qed.
+Print Assumptions parse_serialize.
+
 (* "every decoder is total: on any byte string it terminates": the fuel 2*len+1 given by
    parse_fields always suffices, for every input, option set and depth *)
 Theorem parse_total : forall o depth d, parse_fields o depth d <> OutOfFuel.
